@@ -1,4 +1,4 @@
-CONSTANTS DELIM = 32  MaxArr = 3  MaxStr = 2
+CONSTANTS DELIM = 59  MaxArr = 3  MaxStr = 2  Alphabet = {59, 34, 13, 10, 32, 97, 44}
 SPECIFICATION Spec
 INVARIANT Inv
 CHECK_DEADLOCK FALSE
